@@ -76,6 +76,10 @@ def oracle(case):
         if i["negative_beam"]:
             v.append({"what": f"negative beam radiation: {i['negative_beam'][0]}", "key": {"class": "beam-negative"}})
         _stats["hours_checked"] += i["hours_horizontal"]
+    elif k == "tables-after-use":
+        if i["zones_without_14_july_hours"] or i["zones_without_9_monthly_rows"]:
+            v.append({"what": f"after computing indicators in every zone the embedded tables are no longer complete: July-day hours missing for "
+                              f"{i['zones_without_14_july_hours'][:4]}, monthly rows missing for {i['zones_without_9_monthly_rows'][:4]}", "key": {"class": "tables-after-use"}})
     elif k == "tables":
         for r in i["monthly"]:
             if r["max_err_at_model_azimuth"] > 0.02 + 0.005 * r["july_table"]:
